@@ -39,6 +39,10 @@ def units(tier, seed):
             for indexing in ("ij", "xy"):
                 us.append({"name": f"modes/D{D}/N{N}/{indexing}", "kind": "modes", "D": D, "N": N, "indexing": indexing, "cost": N ** (2 * D)})
             us.append({"name": f"misc/D{D}/N{N}", "kind": "misc", "D": D, "N": N, "cost": N ** (2 * D) / 2})
+    # wide scan of N for the integer-valued helpers: N*(1/N) != 1 in floating point for N = 49, 98, 103, 107, ... - wavenumbers must still be exact integers
+    top = 260 if tier == "quick" else 520
+    for lo in range(2, top, 37):
+        us.append({"name": f"scan/N{lo}-{min(lo + 36, top)}", "kind": "scan", "Ns": list(range(lo, min(lo + 37, top + 1))), "cost": 4000})
     return us
 
 
@@ -346,5 +350,63 @@ def unit_misc(u, rec):
     rec.sample({"D": D, "N": N, "deltas": len(Dl), "blocks": [[str(s) for s in b] for b in blocks][:2]})
 
 
+def unit_scan(u, rec):
+    """wide scan of N (1D and 2D): integer-valued layout helpers, masks for every integer cutoff, scaling arrays, location of edge modes"""
+    import jax.numpy as jnp
+
+    import exponax as ex
+
+    for N in u["Ns"]:
+        rec.dim("N_scan", N)
+        for D in (1, 2):
+            if D == 2 and N > 64 and N not in (98, 103, 107, 161, 187, 196, 197):
+                continue
+            W = ref.rfft_wavenumbers(D, N)
+            for indexing in ("ij", "xy"):
+                WN = np.asarray(ex.spectral.build_wavenumbers(D, N, indexing=indexing))
+                rec.count(states=1, transitions=1, traces=1)
+                if indexing == "ij":
+                    rec.check(WN.shape == W.shape and np.array_equal(WN, W.astype(WN.dtype)), "C04/scan/wavenumbers_exact_integers",
+                              "wavenumber array is not the exact integer layout (floating-point residue breaks equality / cutoff masks)", D=D, N=N,
+                              max_dev=float(np.max(np.abs(WN - W))) if WN.shape == W.shape else None)
+                else:
+                    rec.check(bool(np.all(WN == np.round(WN))), "C04/scan/wavenumbers_exact_integers", "xy wavenumbers are not exact integers", D=D, N=N)
+            kinf = np.max(np.abs(W), axis=0)
+            for cutoff in range(0, N // 2 + 2):
+                m = np.asarray(ex.spectral.low_pass_filter_mask(D, N, cutoff=cutoff))[0]
+                rec.count(states=1, transitions=1, traces=1)
+                if not rec.check(np.array_equal(m, kinf <= cutoff), "C04/scan/low_pass_integer_cutoff", "low-pass mask with an integer cutoff does not keep exactly |k_d| <= cutoff",
+                                 D=D, N=N, cutoff=cutoff, wrong=int(np.sum(m != (kinf <= cutoff)))):
+                    break
+            ob = np.asarray(ex.spectral.oddball_filter_mask(D, N))[0]
+            want = np.ones(W.shape[1:], dtype=bool)
+            if N % 2 == 0:
+                for d in range(D):
+                    want &= np.abs(W[d]) != N // 2
+            rec.check(np.array_equal(ob, want), "C04/scan/oddball_mask", "oddball mask does not remove exactly the Nyquist modes", D=D, N=N)
+            # scaling arrays from the documented rule: per axis N at k = 0 (and at Nyquist on even grids), else N / denominator
+            for mode, (dl, do) in (("norm_compensation", (1, 1)), ("reconstruction", (2, 1)), ("coef_extraction", (2, 2))):
+                sc = np.asarray(ex.spectral.build_scaling_array(D, N, mode=mode))[0]
+                exp_ = np.ones(W.shape[1:])
+                for d in range(D):
+                    den = dl if d == D - 1 else do
+                    special = (W[d] == 0) | ((np.abs(W[d]) == N // 2) if N % 2 == 0 else False)
+                    exp_ = exp_ * np.where(special, float(N), N / den)
+                rec.count(states=1, transitions=1, traces=1)
+                rec.close(float(np.max(np.abs(sc - exp_))), 1e-12 * N**D, f"C04/scan/scaling/{mode}", "scaling array differs from the documented per-axis rule", D=D, N=N)
+            rec.outcome("scan", D, N, int(ob.sum()))
+        # location + amplitude of three single modes (lowest, middle, highest below Nyquist) in 1D
+        x = np.arange(N) / N
+        for k in sorted({1, N // 4, (N - 1) // 2} - {0}):
+            if k >= N / 2:
+                continue
+            f = 1.3 * np.cos(2 * np.pi * k * x + 0.4)
+            ce = np.asarray(ex.spectral.get_fourier_coefficients(jnp.asarray(f[None]), round=None))[0]
+            rec.count(states=1, transitions=1, traces=1)
+            nz = np.where(np.abs(ce) > 1e-9)[0]
+            rec.check(list(nz) == [k] and abs(ce[k] - 1.3 * np.exp(0.4j)) < 1e-10, "C04/scan/coef_extraction", "single mode not read off at its wavenumber with its amplitude", N=N, k=k)
+    rec.sample({"scan_N": [u["Ns"][0], u["Ns"][-1]], "checks": "integer wavenumbers, every integer low-pass cutoff, oddball mask, scaling rule, 1D coefficient read-off"})
+
+
 def run_unit(u, rec):
-    {"modes": unit_modes, "misc": unit_misc}[u["kind"]](u, rec)
+    {"modes": unit_modes, "misc": unit_misc, "scan": unit_scan}[u["kind"]](u, rec)
